@@ -1,11 +1,18 @@
 #!/bin/sh
 # Offline setup: make sure hypothesis and six are importable by the interpreter the
 # checks use; otherwise install them from the local wheelhouse into /verif/.deps.
+# (The checks put /verif/.deps LAST on sys.path, so what the interpreter already has wins.)
 here=$(cd "$(dirname "$0")" && pwd)
 if [ -x /venv/bin/python ]; then PY=/venv/bin/python; else PY=python3; fi
+if "$PY" -c "import hypothesis, six" 2>/dev/null; then
+  "$PY" -c "import hypothesis, six; print('deps ok: hypothesis', hypothesis.__version__, '(interpreter)')"
+  exit 0
+fi
 if ! PYTHONPATH="$here/.deps" "$PY" -c "import hypothesis, six" 2>/dev/null; then
+  # nothing there yet, or something left behind by another interpreter version: start afresh
+  rm -rf "$here/.deps"
   mkdir -p "$here/.deps"
   "$PY" -m pip install --no-index --quiet --find-links /opt/veriftools/wheels \
       --target "$here/.deps" hypothesis six || exit 1
 fi
-PYTHONPATH="$here/.deps" "$PY" -c "import hypothesis, six; print('deps ok: hypothesis', hypothesis.__version__)"
+PYTHONPATH="$here/.deps" "$PY" -c "import hypothesis, six; print('deps ok: hypothesis', hypothesis.__version__, '(/verif/.deps)')"
